@@ -161,6 +161,20 @@ func runC15(c *fw.C) {
 	if err != nil {
 		return
 	}
+	if !writerCache && c.Idx != -1 && fw.Mix(c.Seed, uint64(c.Idx), 79)%4 == 0 {
+		// both versions opened with a fresh, empty NodeCache of their own: every node is
+		// still read from the store once, and no more nodes may be read than without it
+		cc := cold
+		cc.Cache = kinds.MakeCache("big")
+		cco := coldOld
+		cco.Cache = cc.Cache
+		if a, err := cco.Load(p.Old.Root); err == nil {
+			if b, err := cc.Load(p.New.Root); err == nil {
+				ot, nt = a, b
+				c.Obs("pairs_with_cold_node_cache", 1)
+			}
+		}
+	}
 	if writerCache {
 		nt = p.New.T // persisted and re-opened through the writer's cache
 		c.Obs("pairs_new_side_through_writer_cache", 1)
